@@ -202,7 +202,10 @@ def explore(repo: Repo, cls: ClassInfo, fi: FuncInfo, loc: str, sentinels: set[s
                 elems.add(f"__e{p[0]}_{p[1]}__")
                 return ("head", p)
             if ev[2] == "__getitem__":
-                sc.subscripts.append((node, ev[-1], ev[3][0] if ev[3] else "?"))
+                arg = ev[3][0] if ev[3] else "?"
+                sc.subscripts.append((node, ev[-1], arg))
+                if a[0] == "none" and not (":" in arg and not arg.lstrip().startswith(("'", '"'))):
+                    return ("in", (-1, -1))  # one wrapped dict read by position: a scan has started and is not complete
             elif ev[2] != "__iter__":
                 sc.comps.append((node, ev[-1], ev[2]))
             return a
@@ -290,6 +293,232 @@ def _syntactic_reads(f: FuncInfo, loc: str) -> list[tuple[ast.AST, str]]:
     return out
 
 
+# ---- a scan split into a prefix and its complement ------------------------------------------------------------------
+# ``first, *rest = self.dicts`` / ``self.dicts[0]`` + ``self.dicts[1:]`` / ``self.dicts[:mid]`` + ``self.dicts[mid:]``: the
+# partial reads of the list in one function, taken in the order they are used, are judged together: each is an interval
+# [lo, hi) of list positions (bounds compared as canonical text, "0" / "END" for the open ends); they are the full
+# ordered scan exactly when they chain from "0" to "END" without gap, overlap or inversion.
+
+_WHOLE = ("0", "END", "list")
+
+
+class _Tiling(t.NamedTuple):
+    status: str  # "none" (no partial read) | "ok" | "bad" | "unknown"
+    nodes: frozenset  # ids of the expression nodes judged here
+    fact: str
+    first: ast.AST | None
+    whole: frozenset = frozenset()  # ids of expressions that put parts together again to the whole list, in order (``first + rest``)
+    defs: frozenset = frozenset()  # ids of the nodes inside the definitions of locals standing for parts (judged at the uses)
+
+
+def _flat_names(tg: ast.AST) -> list[str] | None:
+    if isinstance(tg, ast.Name):
+        return [tg.id]
+    if isinstance(tg, ast.Starred):
+        return _flat_names(tg.value)
+    if isinstance(tg, (ast.Tuple, ast.List)):
+        out: list[str] = []
+        for e in tg.elts:
+            r = _flat_names(e)
+            if r is None:
+                return None
+            out += r
+        return out
+    return None
+
+
+def split_scan(f: FuncInfo, loc: str) -> _Tiling:
+    none = _Tiling("none", frozenset(), "", None)
+    fn = f.node
+    if not f.params or f.cls is None or not hasattr(fn, "body"):
+        return none
+    me = f.params[0]
+    own = _own_nodes(list(fn.body))  # type: ignore[attr-defined]
+    stores: dict[str, int] = {}
+    for n in own:
+        if isinstance(n, ast.Name) and isinstance(n.ctx, (ast.Store, ast.Del)):
+            stores[n.id] = stores.get(n.id, 0) + 1
+    a = fn.args  # type: ignore[attr-defined]
+    params = {x.arg for x in a.posonlyargs + a.args + a.kwonlyargs} | ({a.vararg.arg} if a.vararg else set()) | ({a.kwarg.arg} if a.kwarg else set())
+    env: dict[str, t.Any] = {}
+    bound_by: dict[int, list[str]] = {}
+
+    def bind(tg: ast.AST, v: ast.AST, st: ast.AST) -> None:
+        if isinstance(tg, ast.Name):
+            env[tg.id] = v
+            bound_by.setdefault(id(st), []).append(tg.id)
+        elif isinstance(tg, (ast.Tuple, ast.List)):
+            stars = [i for i, e in enumerate(tg.elts) if isinstance(e, ast.Starred)]
+            if isinstance(v, (ast.Tuple, ast.List)) and len(v.elts) == len(tg.elts) and not stars and not any(isinstance(e, ast.Starred) for e in v.elts):
+                for x, y in zip(tg.elts, v.elts):
+                    bind(x, y, st)
+            elif len(stars) <= 1:
+                n_ = len(tg.elts)
+                for i, e in enumerate(tg.elts):
+                    if isinstance(e, ast.Starred) and isinstance(e.value, ast.Name):
+                        env[e.value.id] = ("rest", v, i, n_ - i - 1)
+                        bound_by.setdefault(id(st), []).append(e.value.id)
+                    elif isinstance(e, ast.Name):
+                        env[e.id] = ("elem", v, i if not stars or i < stars[0] else i - n_)
+                        bound_by.setdefault(id(st), []).append(e.id)
+
+    for n in own:
+        if isinstance(n, ast.Assign) and len(n.targets) == 1:
+            bind(n.targets[0], n.value, n)
+        elif isinstance(n, ast.AnnAssign) and n.value is not None:
+            bind(n.target, n.value, n)
+    env = {k: v for k, v in env.items() if stores.get(k) == 1 and k not in params}
+
+    def idx(e: ast.AST | None, default: str) -> str:
+        if e is None:
+            return default
+        if isinstance(e, ast.Constant) and isinstance(e.value, int) and not isinstance(e.value, bool):
+            return str(e.value)
+        return norm(e)
+
+    def succ(e: ast.AST) -> str:
+        if isinstance(e, ast.Constant) and isinstance(e.value, int) and not isinstance(e.value, bool):
+            return str(e.value + 1)
+        if isinstance(e, ast.UnaryOp) and isinstance(e.op, ast.USub) and isinstance(e.operand, ast.Constant) and isinstance(e.operand.value, int):
+            return "END" if e.operand.value == 1 else str(1 - e.operand.value)
+        return f"{norm(e)} + 1"
+
+    def concat(parts: list[t.Any]) -> t.Any:
+        if all(p_ is None for p_ in parts):
+            return None
+        if any(p_ is None or p_ == "unknown" for p_ in parts):
+            return "unknown"
+        if any(p_ == "bad" for p_ in parts):
+            return "bad"
+        cur = parts[0]
+        for p_ in parts[1:]:
+            if cur[1] != p_[0]:
+                return "bad"
+            cur = (cur[0], p_[1], "list")
+        return (cur[0], cur[1], "list")
+
+    def seg(e: ast.AST, depth: int = 0) -> t.Any:
+        """None: not a selection of the wrapped list | (lo, hi, 'list' / 'elem') | 'bad' (a reordering / overlapping selection) | 'unknown'."""
+        if depth > 8:
+            return "unknown"
+        if isinstance(e, ast.Attribute) and e.attr == loc and isinstance(e.value, ast.Name) and e.value.id == me and isinstance(e.ctx, ast.Load):
+            return _WHOLE
+        if isinstance(e, ast.Name) and isinstance(e.ctx, ast.Load) and e.id in env:
+            b = env[e.id]
+            if isinstance(b, tuple):
+                base = seg(b[1], depth + 1)
+                if base is None:
+                    return None
+                if base != _WHOLE:
+                    return "unknown"
+                if b[0] == "elem":
+                    k = b[2]
+                    return (str(k), "END" if k == -1 else str(k + 1), "elem")
+                return (str(b[2]), "END" if b[3] == 0 else str(-b[3]), "list")
+            return seg(b, depth + 1)
+        if isinstance(e, ast.Subscript):
+            base = seg(e.value, depth + 1)
+            if base is None or (isinstance(base, tuple) and base[2] == "elem"):
+                return None
+            s_ = e.slice
+            if isinstance(s_, ast.Slice) and s_.lower is None and s_.upper is None and s_.step is None:
+                return base
+            if not isinstance(base, tuple):
+                return base
+            if base != _WHOLE:
+                return "unknown"
+            if isinstance(s_, ast.Slice):
+                if s_.step is not None:
+                    return "bad"
+                return (idx(s_.lower, "0"), idx(s_.upper, "END"), "list")
+            if isinstance(s_, ast.Tuple):
+                return "unknown"
+            return (idx(s_, "?"), succ(s_), "elem")
+        if isinstance(e, ast.Call):
+            d = dotted(e.func) or ""
+            if isinstance(e.func, ast.Attribute) and e.func.attr == "copy" and not e.args and not e.keywords:
+                r = seg(e.func.value, depth + 1)
+                return r if not (isinstance(r, tuple) and r[2] == "elem") else None
+            if d in ORDER_KEEPING and e.args and not isinstance(e.args[0], ast.Starred):
+                r = seg(e.args[0], depth + 1)
+                return r if not (isinstance(r, tuple) and r[2] == "elem") else None
+            if d in PARTIAL and e.args and not isinstance(e.args[0], ast.Starred):
+                r = seg(e.args[0], depth + 1)
+                if r is None or r == _WHOLE or (isinstance(r, tuple) and r[2] == "elem"):
+                    return None
+                return "bad" if isinstance(r, tuple) else r
+            return None
+        if isinstance(e, ast.BinOp) and isinstance(e.op, ast.Add):
+            parts = [seg(e.left, depth + 1), seg(e.right, depth + 1)]
+            if any(isinstance(p_, tuple) and p_[2] == "elem" for p_ in parts):
+                return None
+            return concat(parts)
+        if isinstance(e, (ast.List, ast.Tuple)) and isinstance(e.ctx, ast.Load) and e.elts and any(isinstance(x, ast.Starred) for x in e.elts):
+            parts = []
+            for x in e.elts:
+                r = seg(x.value if isinstance(x, ast.Starred) else x, depth + 1)
+                if isinstance(r, tuple) and (r[2] == "elem") == isinstance(x, ast.Starred):
+                    return None if r[2] == "elem" else "unknown"
+                parts.append(r)
+            return concat(parts)
+        return None
+
+    def binds_segment(st: ast.AST) -> bool:
+        names = [nm for nm in bound_by.get(id(st), []) if nm in env]
+        return bool(names) and len(names) == len(bound_by.get(id(st), [])) and any(seg(ast.Name(id=nm, ctx=ast.Load())) is not None for nm in names)
+
+    uses: list[tuple[tuple[int, int], t.Any, ast.AST]] = []
+    def_ids: set[int] = set()
+
+    def walk(n: ast.AST) -> None:
+        if isinstance(n, (ast.FunctionDef, ast.AsyncFunctionDef, ast.ClassDef)) and n is not fn:
+            return
+        if isinstance(n, (ast.Assign, ast.AnnAssign)) and binds_segment(n):
+            def_ids.update(id(x) for x in ast.walk(n))
+            return  # the definition of a local that stands for a part of the list: judged where the local is used
+        if isinstance(n, ast.expr) and not isinstance(getattr(n, "ctx", None), (ast.Store, ast.Del)):
+            r = seg(n)
+            if r is not None:
+                uses.append((_pos(n), r, n))
+                return
+        for ch in ast.iter_child_nodes(n):
+            walk(ch)
+
+    for st in fn.body:  # type: ignore[attr-defined]
+        walk(st)
+    partial = [(p_, r, n) for p_, r, n in uses if r != _WHOLE]
+    rejoined = frozenset(id(n) for _, r, n in uses if r == _WHOLE and isinstance(n, (ast.BinOp, ast.List, ast.Tuple)))
+    if not partial:
+        return _Tiling("none", frozenset(), "", None, rejoined, frozenset(def_ids))
+    nodes = frozenset(id(n) for _, _, n in partial)
+    partial.sort(key=lambda x: x[0])
+    first = partial[0][2]
+    shown = ", ".join(f"`{norm(n)}`" + (f" = [{r[0]}:{r[1]})" if isinstance(r, tuple) else f" ({r})") for _, r, n in partial)
+    if any(r == "unknown" for _, r, _ in partial):
+        return _Tiling("unknown", nodes, shown, first, rejoined, frozenset(def_ids))
+    whole_scans = [n for _, r, n in uses if r == _WHOLE and isinstance(getattr(n, "_parent", None), (ast.For, ast.AsyncFor, ast.comprehension))]
+    seen: set[tuple[str, str]] = set()
+    chain: list[tuple[str, str]] = []
+    bad = False
+    for _, r, _ in partial:
+        if r == "bad":
+            bad = True
+            continue
+        if r[:2] not in seen:
+            seen.add(r[:2])
+            chain.append(r[:2])
+    cur = "0"
+    for lo, hi in chain:
+        if lo != cur:
+            bad = True
+        cur = hi
+    if cur != "END":
+        bad = True
+    if bad and whole_scans:
+        return _Tiling("unknown", nodes, shown, first, rejoined, frozenset(def_ids))  # a complete scan plus extra positional reads: not a split scan
+    return _Tiling("bad" if bad else "ok", nodes, shown, first, rejoined, frozenset(def_ids))
+
+
 def combined_read_through_rule(ctx: Ctx, rid: str) -> tuple[int, int]:
     """R8.7; returns (#read methods judged, #explicit scan loops judged)."""
     repo = ctx.repo
@@ -319,6 +548,16 @@ def combined_read_through_rule(ctx: Ctx, rid: str) -> tuple[int, int]:
                 return True
         return False
 
+    tilings: dict[str, _Tiling] = {}
+
+    def tiling_of(f: FuncInfo | None) -> _Tiling:
+        if f is None:
+            return _Tiling("none", frozenset(), "", None)
+        got = tilings.get(f.fq)
+        if got is None:
+            got = tilings[f.fq] = split_scan(f, loc)
+        return got
+
     nread = nloops = 0
     for name in READERS:
         owner, what = repo.lookup(cls, name)
@@ -337,6 +576,8 @@ def combined_read_through_rule(ctx: Ctx, rid: str) -> tuple[int, int]:
         for node, lfi, arg in sc.subscripts:
             if ":" in arg and not arg.lstrip().startswith(("'", '"')):
                 continue  # a slice: judged as the iterable of the scan that consumes it
+            if tiling_of(lfi or what).status in ("ok", "bad"):
+                continue  # one part of a scan split into a prefix and its complement: judged as a whole below
             raise AnalysisError(f"{what.fq}: reads self.{loc}[{arg}] (`{norm(node)}`): a positional read of the wrapped dicts is not a scan the read-through rule can judge")
         # ---- the law: early outcomes are answers found in the current dict
         if not sc.loops:
@@ -368,8 +609,14 @@ def combined_read_through_rule(ctx: Ctx, rid: str) -> tuple[int, int]:
             if key in done:
                 continue
             done.add(key)
+            tl = tiling_of(lfi)
+            if tl.status in ("ok", "bad") and id(node.iter) in tl.nodes:  # type: ignore[attr-defined]
+                continue  # part of a split scan: the parts are judged together
             qual = lfi.qualname if lfi else cls.name
             src = norm(node.iter)  # type: ignore[attr-defined]
+            if id(node.iter) in tl.whole:  # type: ignore[attr-defined]
+                ctx.ob(rid, f"{qual}: the scan `for ... in {src}` visits every wrapped dict in list order", True, f"iterable `{src}` joins a prefix of the list and its complement in list order: the whole list, order kept", lfi or cls.fq, node.iter, f"{qual} scan iterable `{src}`")  # type: ignore[attr-defined]
+                continue
             covs = {}
             for t_ in sorted(terms):
                 if "__unparsable__" in t_ or t_ == "?":
@@ -388,6 +635,9 @@ def combined_read_through_rule(ctx: Ctx, rid: str) -> tuple[int, int]:
                 key = (lfi.fq if lfi else fq, _pos(g.iter))
                 if f"{H.SELF}.{loc}" not in canon_ or key in done:
                     continue
+                tl = tiling_of(lfi)
+                if tl.status in ("ok", "bad") and id(g.iter) in tl.nodes:
+                    continue
                 done.add(key)
                 c = coverage(canon_, loc)
                 if c == "partial":
@@ -396,9 +646,16 @@ def combined_read_through_rule(ctx: Ctx, rid: str) -> tuple[int, int]:
         # the list handed on whole outside a loop header (``f(*self.dicts)``), in the method and the helpers it entered
         for fq_ in [fq] + sorted(nm[1:] for nm in sc.follows if nm.startswith("=")):
             f_ = repo.try_func(fq_)
+            tl = tiling_of(f_)
+            if tl.status in ("ok", "bad") and (fq_, "split") not in done:
+                done.add((fq_, "split"))  # type: ignore[arg-type]
+                ok = tl.status == "ok"
+                ctx.ob(rid, f"{f_.qualname}: the partial reads of self.{loc}, in the order they are used, are the full ordered scan", ok, f"parts read: {tl.fact}: " + ("they chain from the first to the last wrapped dict without gap, overlap or inversion" if ok else "they do not chain from position 0 to the end of the list in order (a dict is dropped, read twice, or read out of list order): a selection / reordering of the list"), f_, tl.first or f_.node, f"{f_.qualname} split scan of self.{loc}")
+            if tl.status in ("ok", "bad"):
+                continue
             for top, canon_ in _syntactic_reads(f_, loc) if f_ is not None else []:
                 key = (fq_, _pos(top))
-                if key in done:
+                if key in done or id(top) in tl.defs:
                     continue
                 done.add(key)
                 if coverage(canon_, loc) == "partial":
